@@ -192,6 +192,41 @@ def degenerate(r: random.Random) -> list[dict]:
     return out
 
 
+CTX_WORDS = ["banana", "Actor", "actors", "x", "lives", "ACTOR", "performer2", "obj", "_", "actor_", "K"]
+# one statement per rejection site of the compile handlers that a parseable text can reach (SsbCompilerError / ValueError each)
+SITE_STMTS = [
+    "with ({w} 1) {{ foo(); }}", "with ({w} K) {{ $x = 1; }}", "with ({w} 1) {{ return; }}", "foo<{w} 1>();", "foo<{w} $v>(1, 'a');",
+    "with (actor 1) {{ foo<{w} 2>(); }}", "with ({w} 1) {{ foo<actor 2>(); }}", "with (actor 1) {{ @lbl_{w}; }}", "with ({w} 1) {{ @lbl_{w}; }}",
+    "switch (scn($x)[2]) {{ case 1: a(); }}", "switch (scn($x)[-1]) {{ case 1: a(); }}", "if (foo_{w}()) {{ a(); }}", "if (foo<actor 1>()) {{ a(); }}",
+    "while (foo_{w}(1)) {{ a(); }}", "for ($i = 0; foo_{w}(); $i += 1;) {{ a(); }}", "if (not $x[1]) {{ a(); }}", "while (not K[0]) {{ a(); }}",
+    "a(Position<'m', 1.25, 2>);", "a(Position<'m', 1, 2.75>);", "switch ($x) {{ case 1: 's' }}", "message_SwitchTalk($x) {{ case menu('a'): 's' }}",
+    "message_SwitchMonologue($x) {{ case 1: a(); }}", "switch ($x) {{ default: a(); default: b(); }}", "switch ($x) {{ case 1: a(); case 2: }}",
+    "break;", "continue;", "break_loop;", "~nomacro_{w}();", "~tf_{w}();", "jump @nolabel_{w};", "call @nolabel_{w};",
+]
+PLACEMENTS = ["{s}", "if (debug) {{ {s} }}", "if (debug) {{ a(); }} else {{ {s} }}", "switch ($y) {{ case 1: {s} }}", "forever {{ {s} break_loop; }}",
+              "if (not edit) {{ b(); }} elseif (debug) {{ {s} }}", "for ($j = 0; debug; $j += 1;) {{ {s} }}"]
+
+
+def semantic_sites(r: random.Random) -> list[dict]:
+    """every parseable statement that a compile handler rejects, with odd context words, placed directly in a routine
+    (inside compile's exception-unwrapping try), nested in blocks, and in a macro body (outside of it)"""
+    out = []
+    for i, st in enumerate(SITE_STMTS):
+        w = CTX_WORDS[i % len(CTX_WORDS)] if r.random() < 0.6 else r.choice(CTX_WORDS)
+        stmt = st.format(w=w)
+        tf = f"macro tf_{w}($a) {{ Use($a); }} " if "~tf_" in stmt else ""
+        for pl in [PLACEMENTS[0], r.choice(PLACEMENTS[1:]), r.choice(PLACEMENTS[1:])]:
+            body = pl.format(s=stmt)
+            out.append({"text": f"{tf}def 0 {{ {body} }}", "kind": "site_in_routine"})
+            out.append({"text": f"{tf}def 0 {{ a(); }} def 1 for actor 2 {{ b(); {body} end; }}", "kind": "site_in_second_routine"})
+            out.append({"text": f"{tf}macro sm() {{ {body} }} def 0 {{ ~sm(); }}", "kind": "site_in_macro"})
+            out.append({"text": f"{tf}coro C {{ {body} }}", "kind": "site_in_coroutine"})
+    for w in CTX_WORDS:
+        out.append({"text": f"def 0 for {w} 1 {{ a(); }}", "kind": "site_routine_target_word"})
+        out.append({"text": f"def 0 {{ a(); }} def 1 for {w} K {{ b(); }}", "kind": "site_routine_target_word"})
+    return out
+
+
 def headers(r: random.Random) -> list[dict]:
     out = []
 
